@@ -24,6 +24,8 @@ SEED_HINTS = {
 @PRIOR@""",
     "I": """- Earlier rounds already produced the following changes for this property. Do NOT repeat them or close variants of them. This time break the property from OUTSIDE the functions that implement the mechanism, or through a disagreement between two places that must agree: change a CALLER of the anchor functions (the argument it passes, the moment it calls, what it does with the result, a call it adds or drops); or make two sibling implementations disagree (pure-Python vs compiled where both exist, getone vs getmany path, idempotent vs transactional path, v0/v1 vs v2 format, request builder vs response parser, subscribe vs assign path); or change a declarative table / constant / default that the mechanism reads (a schema entry, an error class attribute, a config default, a class-level constant); or change what a *public* API method does before/after delegating to the mechanism. The anchor functions themselves should stay textually untouched if at all possible:
 @PRIOR@""",
+    "J": """- Earlier rounds already produced the following changes for this property. Do NOT repeat them or close variants of them. This time make it a small DATA-FLOW or VALUE mistake of the kind that survives review: the wrong one of two similar variables or fields (request vs response, old vs new, key vs key_bytes, generation before vs after the await), a stale copy where the live value was needed (or the reverse), `x or default` / `if x:` where 0, an empty string, an empty list or b"" is a legitimate value, `==` vs `is` (or `in` on the wrong container), an off-by-one in a slice, range, comparison or counter, integer vs true division, a loop variable captured late by a lambda/closure, a shared mutable default or class-level container, a shallow copy where the callee mutates, min vs max, a sign error, an index into the wrong position of a tuple, an argument passed to the wrong parameter of the right call. One to five changed lines. It must genuinely violate the property's statement:
+@PRIOR@""",
 }
 SEED_HINT = None
 
@@ -36,6 +38,14 @@ NEUTRAL_STYLE = ("a third kind of clean-up than simple renames or extract-method
 
 
 NEUTRAL_STYLES = {
+    "U": ("a readability pass over TWO OR THREE anchor functions of the kind a reviewer asks for: name a magic sub-expression, replace a "
+          "chained boolean by a well-named local flag computed just before it (same short-circuit order!), replace `len(x) == 0`/`not len(x)` by "
+          "`not x` ONLY for real containers, replace an index loop by tuple unpacking or `enumerate`, turn `for ... : if cond: continue` into a "
+          "filtered loop ONLY if evaluation order is unchanged, use `dict.items()` instead of key lookup in the loop, replace `x = None; if c: x = y` "
+          "by `x = y if c else None`, collapse `if a: return True else: return False` ONLY when `a` is a bool, move a constant expression out of "
+          "a loop, annotate class attributes WITHOUT giving them a shared mutable default (annotations only, values stay in __init__), add type "
+          "hints, convert a `%`-format or `.format` message to an f-string with identical text. NEVER change `is None`/`is not None` tests into "
+          "truthiness tests or the reverse, and never change which object a name refers to"),
     "T": ("a clean-up of PLUMBING rather than of algorithms, in TWO OR THREE places among the anchors and the code that feeds them: move a "
           "unit conversion to an equivalent place (e.g. convert `x_ms / 1000` once in `__init__` into a seconds attribute and use that, or the "
           "reverse; introduce a tiny helper for the conversion), rename timing locals/attributes so that their names say the unit, replace "
